@@ -123,21 +123,7 @@ class GdbMode(_Base):
         if d.chance(0.6):
             specs = histgen.history(d, nconn=d.int(1, 2), nmsg=d.int(5, 36), tagged=True, profile=prof)
         else:
-            # connections come and go: libwayland destroys one and a later connection lives at the same address - a new
-            # connection with a fresh table (ids start over)
-            tags = histgen.gen_tags(d, d.int(1, 2), tagged=True)
-            gens = {t: histgen.ConnGen(t, d.choice(['client', 'server']), prof) for t in tags}
-            specs, t_us = [], d.choice([0, 1000, 123456789])
-            for _ in range(d.int(6, 40)):
-                tag = d.choice(tags)
-                t_us += histgen.next_gap(d)
-                if gens[tag].started and d.chance(0.12):
-                    specs.append(dict(destroy=True, conn=tag, t_us=t_us))
-                    gens[tag] = histgen.ConnGen(tag, d.choice(['client', 'server']), prof)
-                    continue
-                m = gens[tag].next(d)
-                m['conn'], m['t_us'] = tag, t_us
-                specs.append(m)
+            specs = histgen.history_with_destroys(d, prof)
         return dict(dialect='gdb-shaped', specs=specs, vprefix=d.choice(['', '', '3']))
 
     def execute(self, case):
